@@ -1247,8 +1247,57 @@ def check_c20(rep, tier, seed, wd, replay):
                 if ns > bound:
                     probs.append("%s read kept %d decompressed chunks; at most %d chunk time ranges overlap" % (c["order"], ns, bound))
         report_case(rep, c, probs, cr.read_replay)
-    cov = summarize(rep, len(cases), len(files),
-                    "files of 10-60 (thorough: -1000) chunks with overlap depth 1..8 built by the reference encoder; read in LogTime, Reverse and file order, with and without topic/time filters; the verif hook reports slots allocated and slots with unread messages after every Next; compared with the model's slot trace (maxima); oracle: slots <= max(1, max overlap of chunk ranges), 1 in file order",
+    # memory that does not follow from the chunk-slot bound: attachments of any size through writer, lexer and
+    # GetAttachmentReader, and the live heap of a sequential read of many chunks (runtime measurements, no model)
+    sizes = [1024, 1 << 20, 64 << 20] if tier == "quick" else [1024, 1 << 20, 64 << 20, 256 << 20]
+    alines = []
+    for sz in sizes:
+        for chunked in (0, 1):
+            for crc in (0, 1):
+                alines.append("att mode=write size=%d chunked=%d crc=%d" % (sz, chunked, crc))
+        for crc in (0, 1):
+            alines.append("att mode=lexcb size=%d crc=%d" % (sz, crc))
+        alines += ["att mode=lexskip size=%d crc=0" % sz, "att mode=lexskipseek size=%d crc=1" % sz, "att mode=getatt size=%d" % sz]
+    chunkbytes = 512 << 10
+    nch = 48 if tier == "quick" else 400
+    slines = []
+    for comp in ("-", "zstd", "lz4"):
+        for validate in (0, 1):
+            slines.append("seq mode=lex comp=%s chunks=%d chunkbytes=%d validate=%d" % (comp, nch, chunkbytes, validate))
+        slines.append("seq mode=scan comp=%s chunks=%d chunkbytes=%d" % (comp, nch, chunkbytes))
+    mcases = [("c20_attmem_%d" % i, [l]) for i, l in enumerate(alines)] + [("c20_seqmem_%d" % i, [l]) for i, l in enumerate(slines)]
+    mraw, mcr = cm.run_sharded(os.path.join(cm.BUILD, "impl"), "attmem", mcases, wd, "c20mem", nshards=4, timeout=1800)
+    for cmd, rc, err in mcr:
+        rep.add_violation("executor-crash", "%s exited %s: %s" % (cmd, rc, err), [], failing_input=False)
+    st["attachment_runs"] = st["sequential_runs"] = 0
+    st["max_attachment_alloc"] = st["max_sequential_growth"] = 0
+    for cid, lines in mcases:
+        outl = [l for l in mraw.get(cid, []) if l.startswith(("attmem ", "seqmem "))]
+        rp = ["# mode attmem", "case " + cid] + lines + ["end"]
+        if not outl:
+            rep.add_violation("missing-output", "case %s: no measurement" % cid, rp, failing_input=False)
+            continue
+        o = dict(x.split("=", 1) for x in outl[0].split(" ")[1:])
+        if outl[0].startswith("attmem"):
+            st["attachment_runs"] += 1
+            sz = int(o["size"])
+            st["max_attachment_alloc"] = max(st["max_attachment_alloc"], int(o["alloc"]))
+            if o["status"] != "ok" or ("data" in o and o["data"] not in ("-1", str(sz))) or o.get("crc") == "false":
+                rep.add_violation("oracle", "case %s: a %d-byte attachment did not stream through correctly: %s" % (cid, sz, outl[0]), rp)
+            elif int(o["alloc"]) > (1 << 20) or int(o["peakgrowth"]) > (1 << 20):
+                rep.add_violation("oracle", "case %s: streaming a %d-byte attachment (%s) allocated %s bytes (heap growth %s): not constant memory"
+                                  % (cid, sz, o["mode"], o["alloc"], o["peakgrowth"]), rp)
+        else:
+            st["sequential_runs"] += 1
+            st["max_sequential_growth"] = max(st["max_sequential_growth"], int(o["peakgrowth"]))
+            cb = int(o["chunkbytes"])
+            if o["status"] != "ok" or int(o["messages"]) != 17 * int(o["chunks"]):
+                rep.add_violation("oracle", "case %s: sequential read failed: %s" % (cid, outl[0]), rp)
+            elif int(o["peakgrowth"]) > (16 << 20) + 3 * cb or int(o["lexbuf"]) > 2 * cb + (64 << 10):
+                rep.add_violation("oracle", "case %s: a sequential %s read of %s chunks of %d bytes kept %s bytes live (lexer buffer %s): more than one chunk or record"
+                                  % (cid, o["mode"], o["chunks"], cb, o["peakgrowth"], o["lexbuf"]), rp)
+    cov = summarize(rep, len(cases) + len(mcases), len(files),
+                    "files of 10-60 (thorough: -1000) chunks with overlap depth 1..8 built by the reference encoder; read in LogTime, Reverse and file order, with and without topic/time filters; the verif hook reports slots allocated and slots with unread messages after every Next; compared with the model's slot trace (maxima); oracle: slots <= max(1, max overlap of chunk ranges), 1 in file order; attachments of 1 KiB..64 MiB (thorough 256 MiB) generated on the fly through Writer.WriteAttachment (chunked/unchunked, CRC on/off), the lexer (callback reading the data, no callback on seekable and non-seekable sources) and GetAttachmentReader with cumulative allocation and heap growth <= 1 MiB; sequential lexer/scan reads of 48 (400) chunks with live heap growth (GC forced at every sample) <= 16 MiB + 3 chunks",
                     [cr.read_replay(c)[:5] for c in cases[:2]], dict(st, files=len(files), disagreements=nd))
     return cov, ["attachment streaming memory and real buffer sizes are measured at run time, not proved (partial)"]
 
